@@ -11,6 +11,9 @@ import Olla.Spec.State
 namespace Olla.Props.C14
 open Olla.Model.Retry Olla.Model.Passthrough Olla.Spec.C14
 
+/-- a hand-written lookup for the examples (a retuned profile cannot break them) -/
+def exSupportH : Support := fun t => if t == "vllm" || t == "ollama" then some (true, "/v1/messages") else none
+
 def SelectContract (select : List Nat → Option Nat) : Prop := ∀ l e, select l = some e → e ∈ l
 
 /-! ### The decision -/
@@ -360,6 +363,45 @@ theorem C14_spec_holds_gen (enabled : Bool) (translate : List UInt8 → List UIn
   apply himp
   apply gen_raw_lookup_sound row hrow
   rw [← gen_lookup_is_the_code row hrow, hty]; exact hn
+
+/-! ### Fleet histories on one long-lived application
+
+The harness takes ONE production stack through histories in which the candidates of a model change from
+request to request (endpoints going down and coming back, other models, other requests). In the model a
+step's decision is a function of what that step finds alone; so the property holds of every step of every
+history, and what was served before cannot widen the passthrough subset. -/
+
+/-- The decision of the last step of any history is the decision on that step's own candidates:
+    nothing of the steps before it enters. -/
+theorem C14_decision_forgets_history (enabled : Bool) (support : Support) (translate : List UInt8 → List UInt8)
+    (select : List Nat → Option Nat) (before : List Step) (st : Step) :
+    ((runHistory enabled support translate select (before ++ [st])).getLast?).map (·.decision) =
+      some (decideMode enabled st.eps support) := by
+  simp [runHistory, run]
+  cases st.valid <;> simp
+
+/-- The property for every step of every history over the shipped profiles. -/
+theorem C14_history_steps_hold_gen (enabled : Bool) (translate : List UInt8 → List UInt8)
+    (select : List Nat → Option Nat) (steps : List Step) (native : Nat → Bool)
+    (hsel : SelectContract select)
+    (hnat : ∀ st ∈ steps, ∀ e ∈ st.eps, ∃ row ∈ Olla.Gen.Profiles.endpointTypes, row.1 = e.typ ∧ (row.2.2.2.1 = true → native e.id = true))
+    (htr : ∀ st ∈ steps, translate st.body ≠ st.body) :
+    ∀ (i : Nat) (h : i < steps.length),
+      holds (((runHistory enabled genSupport translate select steps)[i]'(by simpa [runHistory] using h)).observed
+        enabled native steps[i].body) = true := by
+  intro i h
+  have hmem : steps[i] ∈ steps := List.getElem_mem h
+  simp only [runHistory, List.getElem_map]
+  exact C14_spec_holds_gen enabled translate steps[i].valid select steps[i].outcome steps[i].eps steps[i].body native hsel
+    (hnat _ hmem) (htr _ hmem)
+
+-- a history on two vllm and one openai endpoint: {vllm, vllm}, then {vllm}, then {openai, vllm} — the third
+-- request's passthrough subset is the one vllm endpoint although two candidates were all-native before
+example : ((runHistory true exSupportH (fun b => 0 :: b) (fun l => l.head?)
+    [⟨[⟨1, "vllm"⟩, ⟨2, "vllm"⟩], true, fun _ => .ok ⟨200, [], []⟩, [7]⟩,
+     ⟨[⟨1, "vllm"⟩], true, fun _ => .ok ⟨200, [], []⟩, [7]⟩,
+     ⟨[⟨0, "openai"⟩, ⟨1, "vllm"⟩], true, fun _ => .ok ⟨200, [], []⟩, [7]⟩]).map (fun r => r.decision.targets.map (·.id))) =
+    [[1, 2], [1], [1]] := by decide
 
 /-! ### Non-vacuity (with a hand-written lookup, so that a retuned profile cannot break an example) -/
 
